@@ -386,7 +386,7 @@ impl Prop for C04 {
         "C04"
     }
     fn rule_text(&self) -> String {
-        "case = config in the layered fragment (plain keys, output chords, multi, XX, _, use-defsrc, layer-while-held, layer-switch, release-key, release-layer; 1-4 layers as deflayer / deflayermap, 2-6 mapped keys, both transparent-key-resolution values, delegate-to-first-layer, block-unmapped-keys, process-unmapped-keys) x physically consistent history (<= 60 events, gaps {0,1,2,3}, fewer than 32 events pending). Oracle: the OS output sequence (ms, kind, key) equals the reference model's, event for event. non-trivial = >= 3 output events and at least one layer change; distinct = output trace signature x config hash.".into()
+        "case = config in the layered fragment (plain keys, output chords, multi, XX, _, use-defsrc, layer-while-held, layer-switch, release-key, release-layer; 1-4 layers as deflayer / deflayermap, 2-6 mapped keys, both transparent-key-resolution values, delegate-to-first-layer, block-unmapped-keys, process-unmapped-keys) x physically consistent history (<= 60 events, gaps {0,1,2,3}, fewer than 32 events pending, OS repeat events of held keys in between - their own output is not compared, everything else must be unaffected). Oracle: the OS output sequence (ms, kind, key) equals the reference model's, event for event. non-trivial = >= 3 output events and at least one layer change; distinct = output trace signature x config hash.".into()
     }
     fn runs(&self, tier: Tier) -> u64 {
         match tier {
@@ -451,7 +451,17 @@ impl Prop for C04 {
         let mut down: Vec<u16> = vec![];
         let mut pending = 0i64;
         let mut ops = vec![];
+        // OS auto-repeat events of held keys are sprinkled in: they are answered at once, outside
+        // the tick, and must not disturb what the surrounding presses and releases do
+        let with_repeats = r.chance(400);
         for _ in 0..n {
+            if with_repeats && !down.is_empty() && r.chance(150) {
+                ops.push(Op::Repeat(*r.pick(&down)));
+                if r.chance(400) {
+                    ops.push(Op::Gap(1));
+                    pending = (pending - 1).max(0);
+                }
+            }
             let can: Vec<u16> = hk.iter().copied().filter(|k| !down.contains(k)).collect();
             if !can.is_empty() && (down.is_empty() || r.chance(520)) {
                 let k = *r.pick(&can);
@@ -512,7 +522,7 @@ impl Prop for C04 {
             return RunOut::skip("more-than-10-held-layers (layer stack capacity)");
         }
         let real: Vec<(u64, bool, String)> = st.trace.outs.iter().filter(|e| matches!(e.kind, OutKind::Press | OutKind::Release)).map(|e| (e.t, e.kind == OutKind::Press, e.key.clone())).collect();
-        let other = st.trace.outs.iter().filter(|e| !matches!(e.kind, OutKind::Press | OutKind::Release)).count();
+        let other = st.trace.outs.iter().filter(|e| !matches!(e.kind, OutKind::Press | OutKind::Release | OutKind::RepeatOut)).count();
         o.sig = fnv(trace_sig(&st.trace.outs), case.cfg.as_bytes());
         let layer_changes = case.cfg.contains("layer-");
         o.nontrivial = real.len() >= 3 && layer_changes;
